@@ -84,6 +84,19 @@ theorem sample_repl_subset {τ : Type} (vin : List τ) (k : Nat) (draws hat : Li
     obtain ⟨out, ho, _, _⟩ := sampleRepl_ok (vin := vin) k draws hk hd
     exact ⟨out, by simp [getSample, ho]⟩
 
+/-- the same for the weighted `getSample(vin, w, vout, true)`: only source elements, for all
+uniform draws and all weights; and an answer exists when there is one weight per element -/
+theorem sample_repl_subset_weighted {α : Type} [Scalar α] {τ : Type} (vin : List τ) (w : List α) (k : Nat) (draws : List α) :
+    (∀ out, getSampleW vin w k true draws = .ok out → out.length = k ∧ ∀ x ∈ out, x ∈ vin) ∧
+    (w.length = vin.length → vin ≠ [] → k ≤ draws.length → ∃ out, getSampleW vin w k true draws = .ok out) := by
+  constructor
+  · intro out h
+    simp only [getSampleW, Bool.not_true, Bool.and_false, Bool.false_eq_true, if_false, if_true] at h
+    exact sampleWRepl_mem _ w k draws out h
+  · intro hw hne hk
+    obtain ⟨out, ho⟩ := sampleWRepl_ok w hw hne k draws hk
+    exact ⟨out, by simp [getSampleW, ho]⟩
+
 /-- emptiness is reported by exception, whatever the draws: every pick on an empty vector and
 every non-empty sample with replacement from an empty vector raises `EmptyVectorException`
 (`pickFromCumSum` only after `fix:` 57b79ce — see `pickFromCumSum_unrepaired_witness`) -/
@@ -137,6 +150,19 @@ theorem marginsOk_iff (nrowt ncolt : List Nat) (T : List (List Int)) :
 margins and the choices (the unrepaired code did: `rcont2_unrepaired_witness`) -/
 theorem rcont2_reads_in_bounds (nrowt ncolt : List Nat) (picks : List (List Int)) :
     rcont2 nrowt ncolt picks ≠ .error .ub := rcont2_no_ub nrowt ncolt picks
+
+/-- what "any value the loops can stop at" means: from the (repaired) starting value the
+increment / decrement walk reaches exactly the support of the cell's conditional hypergeometric
+law, `max(0, ia+id-ie) ≤ v ≤ min(ia, id)` — so the abstraction of the float-dependent choice
+neither forbids a value the code can produce nor (given `rcont2_margins`) admits a harmful one -/
+theorem rcont2_cell_support (ia id ie v : Int) (ha : 0 ≤ ia) (hd : 0 ≤ id) (hie : 0 < ie) (hae : ia ≤ ie) (hde : id ≤ ie) :
+    canReach ia id (ie - ia - id) (startCell ia id ie) v = true ↔
+      max 0 (ia + id - ie) ≤ v ∧ v ≤ min ia id := by
+  obtain ⟨s0, s1, s2, s3⟩ := startCell_bound ha hd hie hae hde
+  rw [canReach_iff s0 (by omega) s2 s3]
+  constructor
+  · rintro ⟨h1, h2, h3, h4⟩; exact ⟨by omega, by omega⟩
+  · rintro ⟨h1, h2⟩; exact ⟨by omega, by omega, by omega, by omega⟩
 
 /-- margins that are refused: fewer than two rows / columns, or different totals -/
 theorem rcont2_rejects (nrowt ncolt : List Nat) (picks : List (List Int)) :
